@@ -146,6 +146,9 @@ def run(prog: Program, res: Result, tier: str) -> None:
     ok = bool(got) and all(g.startswith(canon("FilterbankBlock(stats.downsample_2d(self.data, (ffactor, tfactor), filter_method), X)")[:-3]) for g in got)
     (res.ok if ok else res.bad)("R3", bd, bd.node, "block.downsample: axis 0 (channels) by ffactor, axis 1 (time) by tfactor" if ok else
                                 "block.downsample no longer passes (ffactor, tfactor) for (channel, time) axes", construct="block.downsample", key="block.downsample")
+    from ..report import depends as _depends
+    _depends(res, "R2", prog, tier, "C07", accept=lambda o: "Filterbank.downsample" in (o.where or "") and o.rule in ("C07.R2", "C07.R4", "C07.R5"),
+             why="Filterbank.downsample decimates gulp by gulp: C07's rules for it (gulp a multiple of the time factor, factor roles, what is written) are re-evaluated here")
     res.floor("R1", 9)
     res.floor("R2", 2)
     res.floor("R3", 4)
